@@ -193,6 +193,15 @@ struct no_rvalues
     return {};
   }
 };
+// operations whose constraints reject lvalue arguments at compile time
+struct only_rvalues
+{
+  template <class... Cs>
+  std::bool_constant<((Cs::value == cat_r) && ...)> operator()(Cs...) const
+  {
+    return {};
+  }
+};
 template <int N, class Mk, class Call, class Post = keep_all, class Filter = all_cats>
 void nary(std::string const &entry, unsigned nshapes, Mk mk, Call call, Post post = Post{}, Filter = Filter{})
 {
@@ -1095,11 +1104,297 @@ void vf_slice_2()
 }
 #endif
 
+// =================================================================================== slice 3
+#if VF_IN_SLICE(3)
+#include <fcppt/function.hpp>
+#include <fcppt/either/apply.hpp>
+#include <fcppt/either/bind.hpp>
+#include <fcppt/either/construct.hpp>
+#include <fcppt/either/failure_opt.hpp>
+#include <fcppt/either/first_success.hpp>
+#include <fcppt/either/from_optional.hpp>
+#include <fcppt/either/join.hpp>
+#include <fcppt/either/loop.hpp>
+#include <fcppt/either/map.hpp>
+#include <fcppt/either/map_failure.hpp>
+#include <fcppt/either/match.hpp>
+#include <fcppt/either/object.hpp>
+#include <fcppt/either/sequence.hpp>
+#include <fcppt/either/success_opt.hpp>
+#include <fcppt/either/to_exception.hpp>
+#include <fcppt/optional/object.hpp>
+#include <stdexcept>
+namespace
+{
+using eFE = fcppt::either::object<F, E>; // failure F, success E
+eFE mk_either(case_t &cx, bool success) { return success ? eFE{mk<E>(cx)} : eFE{mk<F>(cx)}; }
+
+void t_either_unary()
+{
+  auto mk1 = [](case_t &cx, unsigned sh) { return std::make_tuple(mk_either(cx, sh == 1)); };
+  nary<1>("either::map", 2, mk1, [](auto c0, auto &a) { return fcppt::either::map(FW(c0, a), conv<E>{}); });
+  nary<1>("either::map/to-other-type", 2, mk1, [](auto c0, auto &a) { return fcppt::either::map(FW(c0, a), conv<G>{}); });
+  nary<1>("either::map_failure", 2, mk1, [](auto c0, auto &a) { return fcppt::either::map_failure(FW(c0, a), conv<F>{}); });
+  nary<1>("either::map_failure/to-other-type", 2, mk1,
+          [](auto c0, auto &a) { return fcppt::either::map_failure(FW(c0, a), conv<G>{}); });
+  nary<1>("either::bind/success", 2, mk1, [](auto c0, auto &a) {
+    return fcppt::either::bind(FW(c0, a), [](auto &&x) { return eFE{conv<E>{}(std::forward<decltype(x)>(x))}; });
+  });
+  {
+    // the continuation turns the success into a failure made of the same element
+    nary<1>("either::bind/to-failure", 2, mk1, [](auto c0, auto &a) {
+      return fcppt::either::bind(FW(c0, a), [](auto &&x) { return eFE{conv<F>{}(std::forward<decltype(x)>(x))}; });
+    });
+  }
+  nary<1>("either::match", 2, mk1, [](auto c0, auto &a) {
+    using res = std::tuple<std::vector<F>, std::vector<E>>;
+    return fcppt::either::match(
+        FW(c0, a),
+        [](auto &&f) {
+          res r;
+          std::get<0>(r).push_back(conv<F>{}(std::forward<decltype(f)>(f)));
+          return r;
+        },
+        [](auto &&x) {
+          res r;
+          std::get<1>(r).push_back(conv<E>{}(std::forward<decltype(x)>(x)));
+          return r;
+        });
+  });
+  nary<1>(
+      "either::success_opt", 2, mk1, [](auto c0, auto &a) { return fcppt::either::success_opt(FW(c0, a)); },
+      [](case_t &cx, unsigned sh, std::vector<int> const &all, auto const &r, auto const &) {
+        std::vector<int> none;
+        cx.result_of(r, sh == 1 ? &all : &none);
+      });
+  nary<1>(
+      "either::failure_opt", 2, mk1, [](auto c0, auto &a) { return fcppt::either::failure_opt(FW(c0, a)); },
+      [](case_t &cx, unsigned sh, std::vector<int> const &all, auto const &r, auto const &) {
+        std::vector<int> none;
+        cx.result_of(r, sh == 0 ? &all : &none);
+      });
+  nary<1>(
+      "either::to_exception", 1, [](case_t &cx, unsigned) { return std::make_tuple(mk_either(cx, true)); },
+      [](auto c0, auto &a) {
+        auto &&ref = fcppt::either::to_exception(FW(c0, a), [](auto &&) { return std::runtime_error("failure"); });
+        return snap_result{snapshot(ref)};
+      });
+  // join: either<F, either<F,E>>: outer failure / inner failure / inner success
+  nary<1>(
+      "either::join", 3,
+      [](case_t &cx, unsigned sh) {
+        using ee = fcppt::either::object<F, eFE>;
+        return std::make_tuple(sh == 0 ? ee{mk<F>(cx)} : ee{mk_either(cx, sh == 2)});
+      },
+      [](auto c0, auto &a) { return fcppt::either::join(FW(c0, a)); });
+  // from_optional(optional, failure function)
+  {
+    int made = 0;
+    case_t *cur = nullptr;
+    nary<1>(
+        "either::from_optional", 2,
+        [&](case_t &cx, unsigned sh) {
+          cur = &cx;
+          made = 0;
+          using oE = fcppt::optional::object<E>;
+          return std::make_tuple(sh == 1 ? oE{mk<E>(cx)} : oE{});
+        },
+        [&](auto c0, auto &a) {
+          return fcppt::either::from_optional(FW(c0, a), [&] {
+            made = cur->fresh();
+            return F(make_t{}, made);
+          });
+        },
+        [&](case_t &cx, unsigned sh, std::vector<int> const &all, auto const &r, auto const &) {
+          std::vector<int> want = all;
+          if (sh == 0)
+            want.push_back(made);
+          cx.result_of(r, &want);
+        });
+  }
+}
+
+void t_either_multi()
+{
+  auto mk2 = [](case_t &cx, unsigned sh) { return std::make_tuple(mk_either(cx, (sh & 1U) != 0), mk_either(cx, (sh & 2U) != 0)); };
+  // documented: the failure of the smallest i such that e_i is a failure, otherwise f(s_1, .., s_n)
+  nary<2>(
+      "either::apply/2", 4, mk2,
+      [](auto c0, auto c1, auto &a, auto &b) {
+        return fcppt::either::apply(
+            [](auto &&x, auto &&y) {
+              return std::make_pair(conv<E>{}(std::forward<decltype(x)>(x)), conv<E>{}(std::forward<decltype(y)>(y)));
+            },
+            FW(c0, a), FW(c1, b));
+      },
+      [](case_t &cx, unsigned sh, std::vector<int> const &all, auto const &r, auto const &) {
+        std::vector<int> want;
+        if (sh == 3)
+          want = all;
+        else if ((sh & 1U) == 0)
+          want.push_back(all[0]);
+        else
+          want.push_back(all[1]);
+        cx.result_of(r, &want);
+      });
+  nary<3>(
+      "either::apply/3", 8,
+      [](case_t &cx, unsigned sh) {
+        return std::make_tuple(mk_either(cx, (sh & 1U) != 0), mk_either(cx, (sh & 2U) != 0), mk_either(cx, (sh & 4U) != 0));
+      },
+      [](auto c0, auto c1, auto c2, auto &a, auto &b, auto &c) {
+        return fcppt::either::apply(
+            [](auto &&x, auto &&y, auto &&z) {
+              return std::make_tuple(conv<E>{}(std::forward<decltype(x)>(x)), conv<E>{}(std::forward<decltype(y)>(y)),
+                                     conv<E>{}(std::forward<decltype(z)>(z)));
+            },
+            FW(c0, a), FW(c1, b), FW(c2, c));
+      },
+      [](case_t &cx, unsigned sh, std::vector<int> const &all, auto const &r, auto const &) {
+        std::vector<int> want;
+        if (sh == 7)
+          want = all;
+        else
+          for (unsigned i = 0; i < 3; ++i)
+            if ((sh & (1U << i)) == 0)
+            {
+              want.push_back(all[i]);
+              break;
+            }
+        cx.result_of(r, &want);
+      },
+      // 27 combinations of categories would be instantiated; keep those with at most one lvalue kind mixed in
+      [](auto c0, auto c1, auto c2) {
+        constexpr int a = decltype(c0)::value, b = decltype(c1)::value, c = decltype(c2)::value;
+        return std::bool_constant<(a == b && b == c) || (a == cat_r && b == cat_r) || (b == cat_r && c == cat_r) ||
+                                  (a == cat_r && c == cat_r)>{};
+      });
+  // sequence: failure pattern 0 = none, 1 = first element, 2 = last element, 3 = random
+  for (unsigned pattern = 0; pattern < 4; ++pattern)
+  {
+    std::string const pn = pattern == 0 ? "all-success" : pattern == 1 ? "first-fails" : pattern == 2 ? "last-fails" : "random";
+    std::vector<int> want;
+    auto mkseq = [&want, pattern](case_t &cx, unsigned n, auto &c) {
+      bool failed = false;
+      std::vector<int> succ;
+      want.clear();
+      for (unsigned i = 0; i < n; ++i)
+      {
+        bool const ok = pattern == 0 ? true : pattern == 1 ? i != 0 : pattern == 2 ? i + 1 != n : cx.rng().chance(2, 3);
+        c.push_back(mk_either(cx, ok));
+        int const p = payloads_of(snapshot(c.back()))[0];
+        if (!ok && !failed)
+        {
+          failed = true;
+          want.push_back(p);
+        }
+        if (ok)
+          succ.push_back(p);
+      }
+      if (!failed)
+        want = succ;
+    };
+    auto post = [&want](case_t &cx, unsigned, std::vector<int> const &, auto const &r, auto const &) { cx.result_of(r, &want); };
+    nary<1>(
+        "either::sequence<vector>/" + pn, nmax(),
+        [&](case_t &cx, unsigned n) {
+          std::vector<eFE> c;
+          mkseq(cx, n, c);
+          return std::make_tuple(std::move(c));
+        },
+        [](auto c0, auto &a) { return fcppt::either::sequence<std::vector<E>>(FW(c0, a)); }, post, only_rvalues{});
+    nary<1>(
+        "either::sequence<list>/" + pn, nmax(),
+        [&](case_t &cx, unsigned n) {
+          std::list<eFE> c;
+          mkseq(cx, n, c);
+          return std::make_tuple(std::move(c));
+        },
+        [](auto c0, auto &a) { return fcppt::either::sequence<std::vector<E>>(FW(c0, a)); }, post, only_rvalues{});
+  }
+}
+
+void t_either_produced()
+{
+  // first_success: a container of functions, each producing an either; produced values must arrive uncopied
+  for (unsigned n = 0; n < nmax(); ++n)
+    for (unsigned succ_at = 0; succ_at <= n; ++succ_at) // succ_at == n: no success
+      run_case("either::first_success", "C", "n=" + std::to_string(n) + " success-at=" + std::to_string(succ_at), [&](case_t &cx) {
+        using fn = fcppt::function<eFE()>;
+        std::vector<fn> fs;
+        std::vector<int> made;
+        unsigned calls = 0;
+        for (unsigned i = 0; i < n; ++i)
+          fs.push_back(fn{[&, i] {
+            ++calls;
+            made.push_back(cx.fresh());
+            return i == succ_at ? eFE{E(make_t{}, made.back())} : eFE{F(make_t{}, made.back())};
+          }});
+        cx.begin();
+        auto r = fcppt::either::first_success(fs);
+        cx.end();
+        std::vector<int> want;
+        if (succ_at < n)
+          want.push_back(made.back());
+        else
+          want = made;
+        if (calls != std::min(n, succ_at + 1U))
+          cx.viol("continuation-calls", "mismatch", "functions called " + std::to_string(calls) + " times");
+        cx.result_of(r, &want);
+      });
+  // construct(bool, success function, failure function)
+  for (unsigned ok = 0; ok < 2; ++ok)
+    run_case("either::construct", "-", ok ? "success" : "failure", [&](case_t &cx) {
+      int made = 0;
+      cx.begin();
+      auto r = fcppt::either::construct(
+          ok != 0,
+          [&] {
+            made = cx.fresh();
+            return E(make_t{}, made);
+          },
+          [&] {
+            made = cx.fresh();
+            return F(make_t{}, made);
+          });
+      cx.end();
+      std::vector<int> want{made};
+      cx.result_of(r, &want);
+    });
+  // loop(next, body): successes are handed to body one by one, the first failure is returned
+  for (unsigned n = 0; n < nmax(); ++n)
+    run_case("either::loop", "-", "successes=" + std::to_string(n), [&](case_t &cx) {
+      std::vector<int> made;
+      std::vector<E> sink;
+      unsigned k = 0;
+      cx.begin();
+      F r = fcppt::either::loop(
+          [&] {
+            made.push_back(cx.fresh());
+            return k++ < n ? eFE{E(make_t{}, made.back())} : eFE{F(make_t{}, made.back())};
+          },
+          [&](E &&x) { sink.push_back(std::move(x)); });
+      cx.end();
+      std::vector<int> got = snapshot(sink);
+      collect(r, got);
+      cx.result(got, &made);
+    });
+}
+}
+void vf_slice_3()
+{
+  t_either_unary();
+  t_either_multi();
+  t_either_produced();
+}
+#endif
+
 // =================================================================================== main
 #if VF_SLICE < 0
 void vf_slice_0();
 void vf_slice_1();
 void vf_slice_2();
+void vf_slice_3();
 namespace
 {
 void body()
@@ -1107,6 +1402,7 @@ void body()
   vf_slice_0();
   vf_slice_1();
   vf_slice_2();
+  vf_slice_3();
 }
 }
 VF_MAIN(body)
